@@ -166,6 +166,21 @@ def run_zone_item(item):
                         else:
                             out['unknown'] += 1
                     off, delta, abbrev = _i16(o['off']), _i16(o['delta']), o['abbrev']
+                    if item.get('offset_range'):
+                        # C05: the offset handed to OffsetDateTime::forEpochSeconds is a non-error value within range
+                        R = item['offset_range']
+                        s.push()
+                        s.add(z3.Or(off < -R, off > R, off == -32768))
+                        r = str(s.check())
+                        out['queries'] += 1
+                        if r == 'unsat':
+                            out['unsat'] += 1
+                        elif r == 'sat':
+                            out['sat'].append({'kind': 'offset-range', 'tag': 'offset within +-%d' % R, 'year': year,
+                                               't': s.model().eval(t, model_completion=True).as_long()})
+                        else:
+                            out['unknown'] += 1
+                        s.pop()
                     for (a, b, utoff, isdst, abbr) in segs:
                         diffs = []
                         if utoff % 60 != 0:
